@@ -4,7 +4,7 @@
    The model is of the REPAIRED code (fix: commits listed in known_findings.json); definitions
    with an `orig` flag keep the unchanged behaviour for the …_refuted witnesses.
    ext = IPv6HopByHop / IPv6Destination; ip6 = IPv6. *)
-From GP Require Import Base N6Lib Lip6Model Lip6Proofs Lip6Rt Lip6Rt2 Lip6Rt3 Lip6Rt4 Lip6Idem Lip6xModel Lip6xProofs.
+From GP Require Import Base N6Lib Lip6Model Lip6Proofs Lip6Rt Lip6Rt2 Lip6Rt3 Lip6Rt4 Lip6Idem Lip6Layers Lip6xModel Lip6xProofs.
 Open Scope Z_scope.
 
 (* ------------------------------------------------------------------ C19 *)
@@ -323,3 +323,58 @@ Example C06_ip6x_nonvacuous :
   fst (rtg_serialize (mkRtg 6 0 0 0 1 [] [[10; 0; 0; 1]; [1; 2; 3]] [] []) [9] true true (repeat 170 64))
   = Ok ([6; 4; 0; 1; 0; 0; 0; 0] ++ [0; 0; 0; 0; 0; 0; 0; 0; 0; 0; 255; 255; 10; 0; 0; 1] ++ repeat 0 16 ++ [9]).
 Proof. repeat split. Qed.
+
+(* ================================================================== the serialize buffer's layer list *)
+(* IPv6.SerializeTo consults b.Layers() (ip6.go:164-172); ip6_serialize_in takes that list as an
+   explicit argument, ip6_serialize is the case of an empty list.  What is written in both cases:
+   (a) no IPv6HopByHop (46) in the list: the list plays no role — every theorem above applies;
+   (b) an IPv6HopByHop layer is in the list: the HopByHop field is NOT serialized, NextHeader is left as
+       it is and no jumbo length is patched in — only the fixed header goes over what the buffer holds
+       (finish; with FixLengths a jumbogram still gets the jumbo option added to the field);
+   (c) for a packet that fits 65535 octets the two ways of writing IPv6 + hop-by-hop header — the header
+       as a layer of its own, then IPv6 with that layer in the list; or the header as the field only —
+       give the same bytes and leave the same layer;
+   and in every case the result does not depend on the junk.
+   Consequence used by the correspondence run: the list must be the one of the CURRENT stack
+   (SerializeLayers clears it); a stale 46 from an earlier packet turns case (a) into case (b) and the
+   packet is written without its hop-by-hop header. *)
+Theorem C06_ip6_layer_list :
+  (forall layers l payload fx cs junk, hbh_done layers = false ->
+     ip6_serialize_in layers l payload fx cs junk = ip6_serialize l payload fx cs junk) /\
+  (forall layers l payload fx cs junk, hbh_done layers = true ->
+     ip6_serialize_in layers l payload fx cs junk =
+       match ip6_step1 l payload fx with
+       | Ok l1 => finish (65535 <? n6_len payload) fx payload l1
+       | Err e => (Err e, l)
+       | Panic s => (Panic s, l)
+       end) /\
+  (forall layers l h payload fx cs j1 j2 j3, ip6_wf l -> p_hbh l = Some h -> p_next l = 0 ->
+     (65535 <? n6_len payload) = false -> hbh_done layers = true ->
+     match ext_serialize h payload fx cs j1 with
+     | (Ok eb, h') =>
+         (65535 <? n6_len eb) = false ->
+         ip6_serialize_in layers (set_len_next l (p_length l) (p_next l) (Some h')) eb fx cs j2 = ip6_serialize l payload fx cs j3
+     | (Err e, h') => fst (ip6_serialize l payload fx cs j3) = Err e
+     | (Panic s, _) => False
+     end).
+Proof.
+  split; [exact ip6_serialize_in_not_done|]. split; [|exact ip6_two_ways].
+  intros layers l payload fx cs junk H. rewrite (ip6_serialize_in_done layers l payload fx cs junk H).
+  destruct (ip6_step1 l payload fx) as [l1|e|s]; try reflexivity. destruct (p_hbh l1); reflexivity.
+Qed.
+Print Assumptions C06_ip6_layer_list.
+
+Theorem C07_ip6_layer_list_junk_free : forall layers l payload fx cs j1 j2, ip6_wf l ->
+  ip6_serialize_in layers l payload fx cs j1 = ip6_serialize_in layers l payload fx cs j2.
+Proof. exact ip6_serialize_in_junk_free. Qed.
+Print Assumptions C07_ip6_layer_list_junk_free.
+
+(* a stale IPv6HopByHop entry: the packet comes out without its hop-by-hop header and its own decoder
+   rejects it (the witness of the seeded change to serializeBuffer.Clear) *)
+Example C06_ip6_stale_layer_list_breaks :
+  let l := mkIp6 6 0 0 0 0 64 (repeat 1 16) (repeat 2 16) (Some (mkExt 59 0 0 [mkTlv 5 2 4 [0; 0] 0 0] [] [])) [] [] in
+  (match ip6_serialize_in [] l [1; 2; 3] true true [] with
+   | (Ok b, _) => n6_len b = 51 /\ snd (fst (ip6_decode_into ip6_fresh b)) = Ok tt | _ => False end) /\
+  (match ip6_serialize_in [46] l [1; 2; 3] true true [] with
+   | (Ok b, _) => n6_len b = 43 /\ snd (fst (ip6_decode_into ip6_fresh b)) <> Ok tt | _ => False end).
+Proof. vm_compute. repeat split; discriminate. Qed.
